@@ -3867,3 +3867,23 @@ package decimal128
 //@ ensures FIN ==> !special(c) && !special(cc) && sign(cc) == sign(c) && sign(c) == sign(d) && coef(cc) == coef(c) && bexp(cc) == bexp(c)
 //@ ensures !isnan(d) ==> eq
 //@ props C19
+
+// Canonical maps two finite non-zero Decimals to the same sign, coefficient and exponent exactly when they are
+// Equal; two zeros to identical bits exactly when their signs agree (C19).
+//@ func verifCanonicalPair
+//@ returns (cx, cy, eq)
+//@ logical Vx real, Vy real
+//@ define FX = (!special(x) && coef(x) != 0)
+//@ define FY = (!special(y) && coef(y) != 0)
+//@ define SAME = (sign(cx) == sign(cy) && coef(cx) == coef(cy) && bexp(cx) == bexp(cy))
+//@ requires FX ==> Vx > 0 && rs(Vx, bexp(x)) == coef(x)
+//@ requires FY ==> Vy > 0 && rs(Vy, bexp(y)) == coef(y)
+//@ call Decimal.Canonical#1: V = Vx
+//@ call Decimal.Canonical#2: V = Vy
+//@ mention rs(Vx, bexp(y)) + rs(Vy, bexp(x))
+//@ apply before "return cx, cy, eq" when {FX && FY}: cmpmag_is_real_order(Vx, Vy, coef(x), bexp(x), coef(y), bexp(y))
+//@ apply before "return cx, cy, eq" when {FX && FY && Vx == Vy}: nf_unique(Vx, coef(cx), bexp(cx), coef(cy), bexp(cy))
+//@ ensures FX && FY && eq ==> SAME
+//@ ensures FX && FY && SAME ==> eq
+//@ ensures !special(x) && !special(y) && coef(x) == 0 && coef(y) == 0 ==> eq && (cx == cy <==> sign(x) == sign(y))
+//@ props C19
